@@ -25,19 +25,30 @@ type roundDriver struct {
 	round   uint64
 	flavour string
 	liar    signature.PublicKey
+	hasLiar bool
 	sent    map[signature.PublicKey]bool
+	// alignedDue: height at which a deliberately aligned round timeout (flavour "timeout-at-transition") falls due.
+	alignedDue int64
+	// epochStats: label describing the liveness statistics last seen in epoch epochStatsFor.
+	epochStats    string
+	epochStatsFor uint64
 	// Outcomes counts what was scripted (for labels of the checks that use the driver).
 	Outcomes map[string]int
 }
 
 var roundFlavours = []string{
-	"agree", "agree", "agree", // every primary worker votes for the scheduler's proposal
+	"agree", "agree", "agree", "agree", // every primary worker votes for the scheduler's proposal
+	"agree-one-absent", "agree-one-absent", // as agree, but one worker (never the anchor's) stays silent: a straggler, or a timeout resolved by the backups
+	"dissent-resolved",
 	"scheduler-only",    // the scheduler's vote arms the timer, nobody else votes: discrepancy by timeout, then failure
 	"dissent-resolved",  // one worker votes differently, the backup workers confirm the proposal (the dissenter is slashed)
 	"dissent-overruled", // one worker votes differently, the backup workers confirm the dissenter's result
 	"dissent-unresolved",
 	"failure-votes", // workers indicate failure
 	"silent",        // nobody votes
+	// the scheduler's vote is timed so that the round timeout falls due exactly in the next epoch-transition block (whose
+	// BeginBlock may re-elect, suspend or resume the runtime before EndBlock processes the timeouts); nobody else votes
+	"timeout-at-transition",
 }
 
 func driverResult(tag int) ExecutorResult {
@@ -50,6 +61,10 @@ func (s *Sim) roundTxs(t *rapid.T, view *View, g *TxGen) []*TxDesc {
 		return nil
 	}
 	rs, err := view.RuntimeState(s.W.Runtime.ID)
+	if s.rd != nil && s.rd.alignedDue > 0 && s.E.Height > s.rd.alignedDue && err == nil && rs != nil {
+		s.rd.Outcomes[fmt.Sprintf("aligned-timeout-passed:runtime-suspended=%v", rs.Suspended)]++
+		s.rd.alignedDue = 0
+	}
 	if err != nil || rs == nil || rs.Suspended || rs.Committee == nil || rs.CommitmentPool == nil || rs.LastBlock == nil {
 		return nil
 	}
@@ -57,11 +72,29 @@ func (s *Sim) roundTxs(t *rapid.T, view *View, g *TxGen) []*TxDesc {
 		s.rd = &roundDriver{Outcomes: map[string]int{}}
 	}
 	rd := s.rd
+	// what the liveness evaluation at the end of the epoch will see (for coverage labels)
+	if ls := rs.LivenessStatistics; ls != nil && rs.Runtime.Executor.MinLiveRoundsPercent > 0 {
+		notLive := false
+		for i, m := range rs.Committee.Members {
+			if m.Role == scheduler.RoleWorker && i < len(ls.LiveRounds) && ls.LiveRounds[i]*100 < ls.TotalRounds*uint64(rs.Runtime.Executor.MinLiveRoundsPercent) {
+				notLive = true
+			}
+		}
+		rd.epochStats = fmt.Sprintf("liveness-at-epoch-end:evaluated=%v,worker-not-live=%v", ls.TotalRounds > 0 && ls.TotalRounds >= rs.Runtime.Executor.MinLiveRoundsForEvaluation, notLive)
+		rd.epochStatsFor = uint64(rs.Committee.ValidFor)
+	}
+	if rd.epochStats != "" && rd.epochStatsFor != uint64(rs.Committee.ValidFor) {
+		rd.Outcomes[rd.epochStats]++
+		rd.epochStats = ""
+	}
 	round := rs.LastBlock.Header.Round + 1
 	if rd.sent == nil || rd.round != round || rd.epoch != uint64(rs.Committee.ValidFor) {
 		rd.round, rd.epoch, rd.sent = round, uint64(rs.Committee.ValidFor), map[signature.PublicKey]bool{}
 		rd.flavour = rapid.SampledFrom(roundFlavours).Draw(t, "roundFlavour")
-		rd.liar = signature.PublicKey{}
+		if s.darkEpoch == view.Epoch && s.darkEpoch != 0 && rapid.IntRange(0, 2).Draw(t, "roundDarkAligned") > 0 {
+			rd.flavour = "timeout-at-transition"
+		}
+		rd.liar, rd.hasLiar = signature.PublicKey{}, false
 		rd.Outcomes["round:"+rd.flavour]++
 	}
 	sched, ok := rs.Committee.Scheduler(round, 0)
@@ -77,17 +110,19 @@ func (s *Sim) roundTxs(t *rapid.T, view *View, g *TxGen) []*TxDesc {
 			backups = append(backups, m.PublicKey)
 		}
 	}
-	if strings.HasPrefix(rd.flavour, "dissent") && !rd.liar.IsValid() {
+	anchorID := s.W.Entities[0].Nodes[0].ID.Public()
+	if (strings.HasPrefix(rd.flavour, "dissent") || rd.flavour == "agree-one-absent") && !rd.hasLiar {
 		var others []signature.PublicKey
 		for _, w := range workers {
-			if !w.Equal(sched.PublicKey) {
+			if !w.Equal(sched.PublicKey) && !w.Equal(anchorID) { // (the anchor's node is operated honestly and reliably)
 				others = append(others, w)
 			}
 		}
+		rd.Outcomes[fmt.Sprintf("dissenter-wanted:workers=%d,available=%v", len(workers), len(others) > 0)]++
 		if len(others) == 0 {
 			rd.flavour = "agree"
 		} else {
-			rd.liar = others[rapid.IntRange(0, len(others)-1).Draw(t, "roundLiar")]
+			rd.liar, rd.hasLiar = others[rapid.IntRange(0, len(others)-1).Draw(t, "roundLiar")], true
 		}
 	}
 	byID := s.W.NodeByID()
@@ -96,8 +131,24 @@ func (s *Sim) roundTxs(t *rapid.T, view *View, g *TxGen) []*TxDesc {
 		tag int // 0 = failure
 	}
 	var votes []vote
+	now := map[signature.PublicKey]bool{} // votes that are not left to chance this block
 	if !rs.CommitmentPool.Discrepancy {
-		if !rd.sent[sched.PublicKey] && rd.flavour != "silent" {
+		if !rd.sent[sched.PublicKey] && rd.flavour == "timeout-at-transition" {
+			// wait for the block whose height + round timeout is the height of the scheduled epoch transition
+			fe, rt := view.FutureEpochHeight(), rs.Runtime.Executor.RoundTimeout
+			switch {
+			case fe > 0 && s.E.Height+rt == fe:
+				votes = append(votes, vote{sched.PublicKey, 1})
+				now[sched.PublicKey] = true
+				rd.alignedDue = fe
+				rd.Outcomes["aligned-timeout-armed"]++
+			case fe > 0 && s.E.Height+rt < fe:
+				// not yet
+			default:
+				rd.flavour = "scheduler-only" // transition not scheduled yet or too close: an ordinary lone scheduler vote
+				votes = append(votes, vote{sched.PublicKey, 1})
+			}
+		} else if !rd.sent[sched.PublicKey] && rd.flavour != "silent" {
 			votes = append(votes, vote{sched.PublicKey, 1}) // (a vote counts only once the scheduler's own is in)
 		} else if rd.sent[sched.PublicKey] {
 			for _, w := range workers {
@@ -107,6 +158,10 @@ func (s *Sim) roundTxs(t *rapid.T, view *View, g *TxGen) []*TxDesc {
 				switch rd.flavour {
 				case "agree":
 					votes = append(votes, vote{w, 1})
+				case "agree-one-absent":
+					if !w.Equal(rd.liar) {
+						votes = append(votes, vote{w, 1})
+					}
 				case "failure-votes":
 					votes = append(votes, vote{w, 0})
 				case "dissent-resolved", "dissent-overruled", "dissent-unresolved":
@@ -124,7 +179,7 @@ func (s *Sim) roundTxs(t *rapid.T, view *View, g *TxGen) []*TxDesc {
 				continue
 			}
 			switch rd.flavour {
-			case "dissent-resolved", "agree", "failure-votes":
+			case "dissent-resolved", "agree", "agree-one-absent", "failure-votes":
 				votes = append(votes, vote{b, 1})
 			case "dissent-overruled":
 				votes = append(votes, vote{b, 2})
@@ -138,7 +193,7 @@ func (s *Sim) roundTxs(t *rapid.T, view *View, g *TxGen) []*TxDesc {
 	var out []*TxDesc
 	for _, v := range votes {
 		nk := byID[v.pk]
-		if nk == nil || rapid.IntRange(0, 2).Draw(t, "roundVoteNow") == 0 {
+		if nk == nil || (!now[v.pk] && !v.pk.Equal(anchorID) && rapid.IntRange(0, 2).Draw(t, "roundVoteNow") == 0) {
 			continue
 		}
 		res := driverResult(v.tag)
